@@ -49,6 +49,8 @@ type Exec struct {
 	labels   map[*ssa.Function]map[ssa.Instruction]string
 	loops    map[*ssa.Function]*loopInfo
 	instances map[string]int
+	callFnSelf Val // the function value being called through a field (fnself at the call site)
+	thisFn     T // identity of the closure under verification (fnself in field contracts)
 	needTheory bool
 	inlineDepth int
 	tier     string
